@@ -16,6 +16,15 @@ ALPHA = [1, 2, 3, 4, 9, 0, None]     # flags, a non-flag value, masked
 WHAT = "IoosQc.C04_main (C04.holds = conforms (worst flag per position))"
 
 
+PACKAGES = ["qartod", "axds", "argo", "my_module"]
+
+
+def collected(vs, style):
+    """The vectors as collected results of tests from several packages and streams (the roll-up is over ALL of them)."""
+    return [CollectedResult(stream_id=["s", "t"][(i + style) % 2], package=PACKAGES[(i * 3 + style) % 4 if style % 2 else 0],
+                            test=f"t{i}", function=None, results=v) for i, v in enumerate(vs)]
+
+
 def mk_vector(cells, style):
     """cells: ints or None (masked)."""
     has_mask = any(c is None for c in cells)
@@ -46,13 +55,11 @@ def observe(vectors, style, via):
         if via == "compare":
             r = qartod.qartod_compare(vs)
         elif via == "aggregate":
-            crs = [CollectedResult(stream_id="s", package="qartod", test=f"t{i}", function=None, results=v)
-                   for i, v in enumerate(vs)]
+            crs = collected(vs, style)
             r = qartod.aggregate(crs)
         else:
             st = PandasStore([])
-            st.collected_results = [CollectedResult(stream_id="s", package="qartod", test=f"t{i}", function=None, results=v)
-                                    for i, v in enumerate(vs)]
+            st.collected_results = collected(vs, style)
             st.compute_aggregate()
             r = st.collected_results[-1].results
         o = sut.canon_result(r)
@@ -69,7 +76,7 @@ def run(out: Outcome, drv):
     out.rule = ("all columns of height <= 3 over the 7-symbol cell alphabet {1,2,3,4,9,non-flag,masked} (exhaustive, packed into "
                 "vectors), random k<=6 vectors of length <=30, masked cells built with masked_all, with flag-valued junk "
                 "under the mask and with a flag as fill_value, every case also permuted / duplicated / regrouped on the real qartod_compare, and run through "
-                "aggregate() and PandasStore.compute_aggregate(), input vectors compared byte for byte before / after the call; non-trivial = result has >= 2 distinct flags")
+                "aggregate() and PandasStore.compute_aggregate() as collected results of tests from several packages (qartod, axds, argo, a user module) and streams, input vectors compared byte for byte before / after the call; non-trivial = result has >= 2 distinct flags")
     cases = []
     # exhaustive columns of height 1..3
     for h in (1, 2, 3):
